@@ -68,10 +68,12 @@ Qed.
 
 Section Rebuild.
   Variables (ds : list nat) (ids : list N) (f : list nat -> Z).
+  Variable balb : Z -> Z -> Z -> Z -> bool.
+  Hypothesis Hbal0 : balb 0 0 0 0 = true.   (* an empty box is trivially balanced *)
   Let D := length ds.
 
   Lemma rebuild_empty_ok : forall d c sub, has_empty sub -> c < length sub -> length sub = D -> 0 < D ->
-    check_tree D f d c sub (rebuild ds ids d c sub) = true.
+    check_tree D f balb d c sub (rebuild ds ids d c sub) = true.
   Proof.
     induction d as [|d IH]; intros c sub He Hc Hl HD; [reflexivity|].
     cbn [rebuild]. destruct (nth_opt_lt sub c Hc) as ((off & size) & Hn). rewrite Hn.
@@ -88,7 +90,7 @@ Section Rebuild.
       rewrite IH; [|apply has_empty_set_same; exact Hc|rewrite set_nth_length; lia|rewrite set_nth_length; exact Hl|exact HD].
       rewrite IH; [|eapply has_empty_set_other; eauto|rewrite set_nth_length; lia|rewrite set_nth_length; exact Hl|exact HD].
       destruct (Nat.leb_spec off off); [|lia]. destruct (Nat.ltb_spec off (off + S n)); [|lia].
-      reflexivity.
+      rewrite Hbal0. reflexivity.
   Qed.
 End Rebuild.
 
@@ -133,14 +135,17 @@ Qed.
 
 Section Complete.
   Variables (ds : list nat) (ids : list N) (f : list nat -> Z).
+  Variables (bal : Z -> Z -> Z -> Z -> Prop) (balb : Z -> Z -> Z -> Z -> bool).
+  Hypothesis Hcompl : forall t w r l, bal t w r l -> balb t w r l = true.
+  Hypothesis Hbal0 : balb 0 0 0 0 = true.
   Let D := length ds.
   Hypothesis HD : 0 < D.
 
-  Lemma rebuild_complete : forall d c sub t0, TreeOK D f bal_prop d c sub t0 ->
+  Lemma rebuild_complete : forall d c sub t0, TreeOK D f bal d c sub t0 ->
     length sub = D -> c < D ->
     forall id0,
     (forall pos, in_box sub pos -> exists q, part_of D t0 pos c id0 = Ok q /\ id_at ds ids pos = Some q) ->
-    check_tree D f d c sub (rebuild ds ids d c sub) = true /\
+    check_tree D f balb d c sub (rebuild ds ids d c sub) = true /\
     (forall pos, in_box sub pos ->
        part_of D (rebuild ds ids d c sub) pos c id0 = part_of D t0 pos c id0).
   Proof.
@@ -154,7 +159,7 @@ Section Complete.
       2:{ apply forallb_false_has_empty in Ene. split.
           - apply rebuild_empty_ok; auto. lia.
           - intros pos Hin. exfalso. eapply has_empty_no_cell; eauto. }
-      assert (Hnode : TreeOK D f bal_prop (S d) c sub (Split p l r)) by (eapply T_node; eauto).
+      assert (Hnode : TreeOK D f bal (S d) c sub (Split p l r)) by (eapply T_node; eauto).
       assert (Hsplit := fun pos => in_box_split sub c off size p pos Hn ltac:(lia)).
       assert (Hm : S c mod D < D) by (apply Nat.mod_upper_bound; lia).
       assert (Hcut : rebuild ds ids (S d) c sub =
@@ -193,7 +198,7 @@ Section Complete.
       + cbn [check_tree]. rewrite Hn. rewrite HcL, HcR.
         destruct (Nat.eqb_spec size 0); [congruence|].
         destruct (Nat.leb_spec off p); [|lia]. destruct (Nat.ltb_spec p (off + size)); [|lia].
-        unfold node_bal in Hb. rewrite (bal_prop_b_complete _ _ _ _ Hb). reflexivity.
+        unfold node_bal in Hb. rewrite (Hcompl _ _ _ _ Hb). reflexivity.
       + intros pos Hin. destruct (in_box_nth _ _ _ _ _ Hin Hn) as (x & Hx & Hxr).
         cbn [part_of]. rewrite Hx. destruct (Nat.ltb_spec x p) as [Hlt|Hge].
         * apply HpL. apply (proj1 (Hsplit pos)). eauto.
@@ -249,12 +254,13 @@ Lemma list_eqb_N_refl l : list_eqb_N l l = true.
 Proof. induction l as [|x t IH]; [reflexivity|]. cbn [list_eqb_N]. rewrite N.eqb_refl, IH. reflexivity. Qed.
 
 (* the checker is complete: an output that satisfies the statement of C10 is accepted *)
-Theorem check_C10_complete s ds ws k ids :
+Theorem check_C10_complete (bal : Z -> Z -> Z -> Z -> Prop) balb s ds ws k ids :
+  (forall t w r l, bal t w r l -> balb t w r l = true) -> balb 0%Z 0%Z 0%Z 0%Z = true ->
   (length ds = 2 \/ length ds = 3) -> Forall (fun x => 1 <= x) ds -> length ws = glen ds ->
   s < length ds ->
-  C10_spec bal_prop s ds ws k ids -> check_C10 s ds ws k ids = true.
+  C10_spec bal s ds ws k ids -> check_C10 balb s ds ws k ids = true.
 Proof.
-  intros HD Hsides Hlw Hs (Hli & Hlt & t0 & Ht0 & Hcells).
+  intros Hcompl Hbal0 HD Hsides Hlw Hs (Hli & Hlt & t0 & Ht0 & Hcells).
   assert (HD0 : 0 < length ds) by lia.
   assert (Hag : forall pos, in_box (into_subgrid ds) pos ->
             exists q, part_of (length ds) t0 pos s 0%N = Ok q /\ id_at ds ids pos = Some q).
@@ -262,7 +268,7 @@ Proof.
     destruct (Hcells i Hi) as (pos' & q & Hp' & _ & _ & Hq & Hn).
     rewrite Hpos in Hp'. injection Hp' as <-. exists q. split; [exact Hq|].
     unfold id_at. rewrite Hix. exact Hn. }
-  destruct (rebuild_complete ds ids (wfun ds ws) HD0 k s (into_subgrid ds) t0 Ht0
+  destruct (rebuild_complete ds ids (wfun ds ws) bal balb Hcompl Hbal0 HD0 k s (into_subgrid ds) t0 Ht0
               ltac:(unfold into_subgrid; apply map_length) Hs 0%N Hag) as (Hck & Hpo).
   unfold check_C10.
   assert (Hex : existsb (Nat.eqb 0) ds = false).
